@@ -725,6 +725,7 @@ func c11qRunDirect(path []c11event) (vios []c11vio, obs, key string) {
 
 			switch m, err := p.Process(context.Background(), nil); {
 			case err != nil:
+				if ev.answer == "" { println("C11DEBUG", fmt.Sprintf("%+v", err)) }
 				obs = "process:failed"
 			case m == nil:
 				obs = "process:no-manifest"
